@@ -32,6 +32,14 @@ theorem sqrt_contract_over_sqrt_rem (W : Nat) (hW : 0 < W) (hWe : W % 2 = 0) (B 
     ∃ r, ctxSqrt B m c (sqrtRemRepr W true) p x = .ok r ∧ ContractSqrt B m p (x.toRat B) (r.1.toRat B) r.2 :=
   Dashu.Props.C03.sqrt_contract B hB m c _ (sqrtRemRepr_ok W hW hWe) p hp x hs
 
+/-- the Exact flag of `Context::sqrt` over the mirrored `UBig::sqrt_rem`: `Exact` iff the mirrored kernel's remainder of the
+    scaled significand is zero AND the scaling discarded only zero digits (round 5; `Props/C03.sqrt_exact_flag_iff`) -/
+theorem sqrt_exact_flag_over_sqrt_rem (W : Nat) (hW : 0 < W) (hWe : W % 2 = 0) (B : Nat) (hB : 2 ≤ B) (m : Mode)
+    (c : Coarse) (p : Nat) (hp : 1 ≤ p) (x : FRepr) (hs : 0 ≤ x.signif) :
+    ∃ r, ctxSqrt B m c (sqrtRemRepr W true) p x = .ok r ∧
+      (r.2 = none ↔ ((sqrtRemRepr W true (sqrtScale B p x).1.natAbs).2 = 0 ∧ (sqrtScale B p x).2.1 = 0)) :=
+  Dashu.Props.C03.sqrt_exact_flag_iff B hB m c _ (sqrtRemRepr_ok W hW hWe) p hp x hs
+
 /-- both kernels meet the contract, hence return the same root and remainder: the driver's `Nat.sqrt`
     run is a run of the mirrored kernel -/
 theorem kernels_agree (W : Nat) (hW : 0 < W) (hWe : W % 2 = 0) (n : Nat) : sqrtRemRepr W true n = natSqrtRem n := by
@@ -48,5 +56,10 @@ theorem kernels_agree (W : Nat) (hW : 0 < W) (hWe : W % 2 = 0) (n : Nat) : sqrtR
       omega
   have hrem : (sqrtRemRepr W true n).2 = (natSqrtRem n).2 := by rw [hroot] at a3; omega
   exact Prod.ext hroot hrem
+
+/-- the hypotheses of the three link theorems are met by the word sizes the library is built for, on a non-trivial operand:
+    `√401` at one decimal digit over the mirrored 64-bit kernel (perfect-square prefix, discarded digits `01`) -/
+example : 0 < 64 ∧ 64 % 2 = 0 ∧ 0 < 32 ∧ 32 % 2 = 0 ∧ (2 : Nat) ≤ 10 ∧ 1 ≤ 1 ∧ (0 : Int) ≤ (⟨401, 0⟩ : FRepr).signif ∧
+    (sqrtScale 10 1 ⟨401, 0⟩).2.1 ≠ 0 := by decide
 
 end Dashu.Props.C03Link
